@@ -32,7 +32,7 @@ func c06Pos(layout int) ([]*decl.PosArg, string) {
 		return []*decl.PosArg{pa("Z", "1-2", decl.TStrings)}, ""
 	case 5:
 		return []*decl.PosArg{pa("Z", "0-1", decl.TStrings)}, ""
-	case 6:
+	case 6, 7: // 7: as 6, but the program sets ArgsRequired on the command itself
 		return []*decl.PosArg{pa("X", "", decl.TString), pa("Y", "", decl.TString)}, ""
 	}
 	return nil, ""
@@ -61,9 +61,9 @@ func c06Decl(mask int, layout int, onB bool, cmdRequired bool) *decl.Decl {
 	top.Cmds = []*decl.Cmd{a, cc}
 	pos, preq := c06Pos(layout)
 	if onB {
-		b.Pos, b.PosRequired = pos, preq
+		b.Pos, b.PosRequired, b.ArgsRequiredAPI = pos, preq, layout == 7
 	} else {
-		top.Pos, top.PosRequired = pos, preq
+		top.Pos, top.PosRequired, top.ArgsRequiredAPI = pos, preq, layout == 7
 	}
 	if cmdRequired {
 		// a command is mandatory at both levels: a missing required option must still be reported as such
@@ -78,14 +78,14 @@ func init() {
 	cache := map[string]*decl.Decl{}
 	body := func(c *explore.Ctx) {
 		mask := c.Choose(64)
-		lay := c.Deviate(13) // 0 = none; 1..6 on b; 7..12 on the parser
+		lay := c.Deviate(15) // 0 = none; 1..7 on b; 8..14 on the parser
 		cmdReq := c.Deviate(2) == 1
 		api := c.Bool()
 		layout, onB := 0, false
-		if lay >= 1 && lay <= 6 {
+		if lay >= 1 && lay <= 7 {
 			layout, onB = lay, true
-		} else if lay > 6 {
-			layout = lay - 6
+		} else if lay > 7 {
+			layout = lay - 7
 		}
 		maxDepth := 3
 		if c.Thorough {
@@ -174,7 +174,7 @@ func init() {
 		Body:       body,
 		DevBound:   func(bool) int { return 1 },
 		Rule: "tree parser -> a -> b, sibling c, 6 options; all 64 subsets marked required (spellings yes/true/1, the others unmarked or marked false/no/0) x positional layouts " +
-			"{none, 2 scalars struct-required, per-field required, rest required 2, 1-2, 0-1, optional} on b or on the parser x {tags, API} x every sequence of <= 3 (quick) / <= 4 (thorough) units " +
+			"{none, 2 scalars struct-required, per-field required, rest required 2, 1-2, 0-1, optional, two scalars made required by setting Command.ArgsRequired in the program} on b or on the parser x {tags, API} x every sequence of <= 3 (quick) / <= 4 (thorough) units " +
 			"supplying options by short, long=, separate and cluster spellings, command words, plain words and the -- terminator (PassDoubleDash set; words after it still count for the positional constraints); one more deviation makes subcommands mandatory at both inner levels (a missing required option is still ErrRequired, not ErrCommandRequired); oracle = CLM missing set: ErrRequired iff something on the active chain is missing, " +
 			"message names every missing item and none that is supplied or belongs to an unselected command; nothing executed",
 		Assumptions:  []string{"required options carry no default/env here (whether a default supplies a required option is not settled by the statement)", "markers are long option names / positional names chosen so that none is a substring of another"},
